@@ -33,7 +33,8 @@ func refValidSubtree(start, end int64) bool {
 // VerifC16Subtree: one sign-subtree request over a log of `size` leaves (branch A of a fork) with a
 // symbolic (start, end), a symbolic checkpoint size, a symbolic combination of signatures on the
 // presented checkpoint (signers: bit 0 witness ML-DSA, bit 1 mirror ML-DSA, bit 2 witness Ed25519,
-// bit 3 a foreign cosigner, bit 4 a forged line with the witness's name and key hash), and a correct
+// bit 3 a foreign cosigner, bit 4 a forged line with the witness's name and key hash, bits 5/6 a line under the
+// mirror's / witness's name made with a foreign key), and a correct
 // or wrong subtree hash / proof / checkpoint root.
 func VerifC16Subtree(size int) {
 	f := newFork("log.example/fork", size, 1)
@@ -50,7 +51,9 @@ func VerifC16Subtree(size int) {
 		verifAssume(false) // negative widths are malformed requests: one representative (end == start) is kept
 	}
 	// signer combinations: none, witness, mirror, both, witness+Ed25519, foreign only, forged only, mirror+forged, Ed25519 only
-	signers := []int{0, 1, 2, 3, 5, 8, 16, 18, 4}[verifConcretize(verifChoice("signers", 9))]
+	// witness + a line under the mirror's name by a foreign key, mirror + a line under the witness's name by a
+	// foreign key, both impostor lines only
+	signers := []int{0, 1, 2, 3, 5, 8, 16, 18, 4, 33, 66, 96}[verifConcretize(verifChoice("signers", 12))]
 	hashKind := verifConcretize(verifChoice("hash", 3))   // 0 right, 1 wrong subtree hash, 2 hash of the other branch
 	proofKind := verifConcretize(verifChoice("proof", 2)) // 0 right, 1 corrupted
 	rootKind := 0
@@ -77,6 +80,21 @@ func VerifC16Subtree(size int) {
 			panic(err)
 		}
 		ss = append(ss, foreign)
+	}
+	if signers&32 != 0 {
+		// a valid cosignature line carrying the mirror's NAME but made with a foreign key (other key hash)
+		imp, err := torchwood.NewCosignatureSigner(wit.sm.Name(), verifNewMLDSAKey())
+		if err != nil {
+			panic(err)
+		}
+		ss = append(ss, imp)
+	}
+	if signers&64 != 0 {
+		imp, err := torchwood.NewCosignatureSigner(wit.s2.Name(), verifNewMLDSAKey())
+		if err != nil {
+			panic(err)
+		}
+		ss = append(ss, imp)
 	}
 	signed, err := note.Sign(&note.Note{Text: text}, ss...)
 	if err != nil {
